@@ -2,9 +2,16 @@
 // Oracle: barycentric coordinates solved with Eigen on the Cartesian coordinates of integer vertices (own affine map M v / scale + b),
 // validity of a vertex set as a simplex from fk_oracle.h, and a brute-force enumeration of the top simplices { y, y+e_p(1), ... } of the
 // unit cubes around the query point (carrier = vertices with positive weight; must be the same for every top simplex containing the point).
+// Every located simplex is also compared at the representation level (operator==) with the way face_range / coface_range list the same
+// simplex (c20_checks.h: canonical_check, route_eq_checks), and every query is repeated through another argument form (Eigen::VectorXd,
+// std::array, std::deque, defaulted scale).  fk_scales: identity map at scales 2^-10, 1e-3, 1000, 2^20 and d = 8, 10; fk_aniso: a
+// condition-1e4 map with the minimality check scaled by the conditioning noise; fk_wide: lattice coordinates up to 2^30 against an
+// integer-only oracle.
 // Compile with -DC20_COX for the Coxeter_triangulation configs, without for the Freudenthal_triangulation configs.
 #include <cmath>
 #include <memory>
+#include <array>
+#include <deque>
 #include <Eigen/Dense>
 #ifdef C20_COX
 #include <gudhi/Coxeter_triangulation.h>
@@ -32,6 +39,7 @@ struct Setup {
   const FK* tr = nullptr;
   Mat M; Vec off; double scale = 1;
   bool exact = false;   // identity map, scale a power of two: every quantity the library computes is exact on dyadic inputs
+  double noise_factor = 0;  // ill-conditioned map: the lattice coordinates of a query point x are only defined up to noise_factor * (|x| + |offset|)
   std::string cls;
   Eigen::FullPivLU<Mat> lu;
 };
@@ -50,16 +58,57 @@ std::string show_point(const Point& p) {
   o << "]"; return o.str();
 }
 
-// barycentric coordinates of x with respect to the vertex set W (least squares on the affine hull); returns residual (inf-norm)
+// barycentric coordinates of x with respect to the vertex set W (least squares on the affine hull); returns residual (inf-norm).
+// The Cartesian rows of the system are multiplied by the scale of the triangulation (same solution; keeps them commensurate with the
+// row of ones when the scale is 2^-10 or 2^20), so that the residual is in units of the lattice spacing of the linear map.
 double barycentric(const Setup& S, const fk::Simplex& W, const Point& x, Vec& lambda) {
   const std::size_t n = W.size();
   Mat A(S.d + 1, n);
-  for (std::size_t j = 0; j < n; ++j) { A.block(0, j, S.d, 1) = own_cart(S, W[j]); A(S.d, j) = 1.0; }
+  for (std::size_t j = 0; j < n; ++j) { A.block(0, j, S.d, 1) = S.scale * own_cart(S, W[j]); A(S.d, j) = 1.0; }
   Vec b(S.d + 1);
-  for (std::size_t i = 0; i < S.d; ++i) b(i) = x[i];
+  for (std::size_t i = 0; i < S.d; ++i) b(i) = S.scale * x[i];
   b(S.d) = 1.0;
   lambda = A.colPivHouseholderQr().solve(b);
   return (A * lambda - b).cwiseAbs().maxCoeff();
+}
+
+// the same query through another documented form of the argument: Point_d is any random-access range of coordinates with size();
+// the scale defaults to 1
+template <std::size_t N> PR locate_array(const FK& tr, const Point& x, double scale, bool omit) {
+  std::array<double, N> a;
+  for (std::size_t i = 0; i < N; ++i) a[i] = x[i];
+  return omit ? tr.locate_point(a) : tr.locate_point(a, scale);
+}
+PR locate_other_form(vh::Rng& r, const FK& tr, const Point& x, double scale, std::string& form) {
+  const bool omit = scale == 1 && r.chance(1, 2);
+  PR out;
+  switch (r.below(3)) {
+    case 0: {
+      Vec v(x.size());
+      for (std::size_t i = 0; i < x.size(); ++i) v(i) = x[i];
+      form = "eigen_vector"; out = omit ? tr.locate_point(v) : tr.locate_point(v, scale); break;
+    }
+    case 1:
+      form = "std_array";
+      switch (x.size()) {
+        case 1: out = locate_array<1>(tr, x, scale, omit); break;
+        case 2: out = locate_array<2>(tr, x, scale, omit); break;
+        case 3: out = locate_array<3>(tr, x, scale, omit); break;
+        case 4: out = locate_array<4>(tr, x, scale, omit); break;
+        case 5: out = locate_array<5>(tr, x, scale, omit); break;
+        case 6: out = locate_array<6>(tr, x, scale, omit); break;
+        case 8: out = locate_array<8>(tr, x, scale, omit); break;
+        case 10: out = locate_array<10>(tr, x, scale, omit); break;
+        default: form = "std_vector"; out = omit ? tr.locate_point(x) : tr.locate_point(x, scale); break;
+      }
+      break;
+    default: {
+      std::deque<double> q(x.begin(), x.end());
+      form = "std_deque"; out = omit ? tr.locate_point(q) : tr.locate_point(q, scale); break;
+    }
+  }
+  if (omit) form += ",scale_omitted";
+  return out;
 }
 
 // Brute force: every top simplex of every unit cube within 1e-6 of the point; whenever one contains the point, each of its vertices
@@ -126,12 +175,23 @@ bool query(vh::Case& c, const Setup& S, const Point& x, const std::string& pcls,
   c.count("obs.locate_point");
   c.count("obs.locate_point." + pcls);
   c.log("  -> " + show(R));
+  {
+    std::string form;
+    PR R2 = locate_other_form(c.rng, *S.tr, x, S.scale, form);
+    c.count("obs.locate_point.form." + form);
+    if (!C20_EXPECT(c, R2 == R, "locate.argument_form_independent", S.cls + ",form=" + form, "point " + show_point(x) + " scale " + vh::str(S.scale) + ": " + show(R) + " from a std::vector<double> and an explicit scale, " + show(R2) + " from " + form)) return false;
+  }
   if (!C20_EXPECT(c, wellformed(R, S.d), "locate.rep_wellformed", sig, show(R) + " is not an ordered partition of 0..d with d in the last part")) return false;
   fk::Simplex V;
   if (!vertex_checks(c, R, S.d, "from_locate", V, nullptr)) return false;
+  // representation level: the located simplex is operator== to the same simplex as the other routes of the library list it
+  canonical_check(c, R, V, "from_locate");
+  route_eq_checks(c, R, S.d, "from_locate", V, 300);
   Vec lam;
   double res = barycentric(S, V, x, lam);
-  double xn = 1.0; for (double t : x) xn = std::max(xn, std::fabs(t));
+  double xn = 1.0; for (double t : x) xn = std::max(xn, std::fabs(t) * S.scale);
+  double xabs = 0; for (double t : x) xabs = std::max(xabs, std::fabs(t));
+  const double noise = S.noise_factor * (xabs + (S.off.size() ? S.off.cwiseAbs().maxCoeff() : 0.0));
   if (!C20_EXPECT(c, res <= 1e-7 * xn, "locate.contains", sig + ",off_affine_hull", "point " + show_point(x) + " is at " + vh::str(res) + " from the affine hull of returned " + fk::show(V))) return false;
   if (!C20_EXPECT(c, lam.minCoeff() >= -kTolWeight, "locate.contains", sig + ",negative_weight", "point " + show_point(x) + " has weights " + vh::str(lam.transpose()) + " on returned " + fk::show(V))) return false;
   // minimality: the library merges fractional parts closer than its documented tolerance 1e-9, so that every vertex it keeps
@@ -140,7 +200,9 @@ bool query(vh::Case& c, const Setup& S, const Point& x, const std::string& pcls,
   bool nonminimal = false;
   {
     bool base = false, other = false;
-    for (std::size_t j = 0; j < V.size(); ++j) if (lam(j) <= kNegligible) { (V[j] == R.vertex() ? base : other) = true; }
+    // (ill-conditioned map: the weights are only defined up to `noise`; the check is void once that reaches the threshold)
+    if (noise >= kNegligible) c.count("skip.minimality_below_noise");
+    else for (std::size_t j = 0; j < V.size(); ++j) if (lam(j) <= kNegligible - noise) { (V[j] == R.vertex() ? base : other) = true; }
     c.count("cmp.locate.minimal");
     if (base || other) {
       nonminimal = true;
@@ -358,8 +420,149 @@ void fk_affine_case(vh::Case& c) {
   c.count("setup.fk_affine.ctor" + vh::str(how));
   run_queries(c, S);
 }
+// identity map at extreme scales (2^-10 and 2^20: exact; 1e-3 and 1000: the product scale * x rounds) and in ambient dimensions 8 and 10
+void fk_scales_case(vh::Case& c) {
+  vh::Rng& r = c.rng;
+  Setup S;
+  static const std::size_t dims[] = {1, 2, 3, 4, 5, 6, 8, 10};
+  S.d = dims[r.below(8)];
+  static const double scales[] = {1.0 / 1024, 1e-3, 1000, 1048576.0};
+  const unsigned si = (unsigned)r.below(4);
+  S.scale = scales[si];
+  S.exact = si == 0 || si == 3;
+  S.M = Mat::Identity(S.d, S.d); S.off = Vec::Zero(S.d);
+  S.cls = S.exact ? "fk_identity,exact,scale_extreme" : "fk_identity,scale_nondyadic";
+  c.log("Freudenthal_triangulation(d=" + vh::str(S.d) + ") scale=" + vh::str(S.scale));
+  FK tr(S.d);
+  S.tr = &tr;
+  c.count("setup." + S.cls);
+  c.count("setup.scale_index" + vh::str(si));
+  c.count(S.d > 6 ? "setup.d_8_10" : "setup.d_1_6");
+  run_queries(c, S);
+}
+
+// one anisotropic class: singular values 1e-2 .. 1e2 (condition number 1e4) between two random rotations.  The lattice coordinates of a
+// Cartesian point are then only defined up to ~ eps * scale * (|x| + |b|) / s_min, above the library's 1e-9 merging threshold in the worst
+// case: the minimality check is scaled by that bound (void when it reaches 1e-10); containment at 1e-7, mandatory vertices at 1e-6 and
+// the brute-force carrier stay as they are, far above the noise.
+void fk_aniso_case(vh::Case& c) {
+  vh::Rng& r = c.rng;
+  Setup S;
+  S.d = 2 + r.below(5);
+  static const double scales[] = {0.5, 1, 3};
+  S.scale = scales[r.below(3)];
+  Vec sv(S.d);
+  for (std::size_t i = 0; i < S.d; ++i) sv(i) = std::pow(10.0, -2.0 + 4.0 * (double)i / (double)(S.d - 1));
+  S.M = random_orthogonal(r, S.d) * sv.asDiagonal() * random_orthogonal(r, S.d);
+  S.off = Vec::Zero(S.d);
+  for (std::size_t i = 0; i < S.d; ++i) S.off(i) = 2 * r.unit() - 1;
+  S.noise_factor = 64 * 2.3e-16 * S.scale / sv.minCoeff();
+  std::ostringstream ms; ms.precision(17); ms << S.M;
+  c.log("Freudenthal_triangulation d=" + vh::str(S.d) + " matrix(aniso, cond 1e4)=\n" + ms.str() + "\noffset=" + vh::str(S.off.transpose()) + " scale=" + vh::str(S.scale));
+  S.cls = "fk_affine,aniso_cond1e4";
+  FK tr((unsigned)S.d, S.M, S.off);
+  S.tr = &tr;
+  c.count("setup.fk_affine.aniso_cond1e4");
+  run_queries(c, S);
+}
+
+// exact class with an integer oracle: identity map, power-of-two scale 2^-10 .. 2^20, lattice coordinates up to 2^30, fractional parts
+// multiples of 1/1024, d up to 10.  scale * x, floor and the fractional parts are exact, so the carrier of the point is known without any
+// floating-point reasoning: the base vertex floor(xi) and, for every distinct positive fractional value t, base + [frac >= t].
+template <class P> PR locate_as(const FK& tr, const Point& x, double scale, bool omit) {
+  P p(x.size());
+  for (std::size_t i = 0; i < x.size(); ++i) p[i] = (typename P::value_type)x[i];
+  return omit ? tr.locate_point(p) : tr.locate_point(p, scale);
+}
+
+void fk_wide_case(vh::Case& c) {
+  vh::Rng& r = c.rng;
+  static const std::size_t dims[] = {1, 2, 3, 4, 5, 6, 8, 10};
+  const std::size_t d = dims[r.below(8)];
+  static const int scale_exp[] = {-10, -3, 0, 5, 10, 20};
+  const int se = scale_exp[r.below(6)];
+  const double scale = std::ldexp(1.0, se);
+  const std::string cls = "fk_identity,exact_wide";
+  c.log("Freudenthal_triangulation(d=" + vh::str(d) + ") scale=2^" + vh::str(se));
+  FK tr(d);
+  c.count("setup." + cls);
+  c.count(d > 6 ? "setup.d_8_10" : "setup.d_1_6");
+  bool nontrivial = false;
+  for (int q = 0; q < 24; ++q) {
+    static const int bitsv[] = {4, 20, 30};
+    const int bits = bitsv[r.below(3)];
+    const unsigned kind = (unsigned)r.below(3);
+    static const char* kinds[] = {"lattice_vertex", "generic_1024ths", "tied_16ths"};
+    std::vector<long> base(d), num(d);
+    std::vector<long> groups(1 + r.below(4));
+    for (auto& g : groups) g = 64 * (long)r.below(16);
+    for (std::size_t i = 0; i < d; ++i) {
+      base[i] = r.range(-(1L << bits), (1L << bits) - 2);
+      num[i] = kind == 0 ? 0 : kind == 1 ? (long)r.below(1024) : groups[r.below(groups.size())];
+    }
+    Point x(d);
+    for (std::size_t i = 0; i < d; ++i) x[i] = std::ldexp((double)base[i] + (double)num[i] / 1024.0, -se);
+    // oracle, integers only
+    fk::Simplex want;
+    {
+      fk::Vertex b(base.begin(), base.end());
+      want.push_back(b);
+      std::set<long> ts(num.begin(), num.end());
+      ts.erase(0);
+      for (long t : ts) { fk::Vertex v = b; for (std::size_t i = 0; i < d; ++i) if (num[i] >= t) v[i]++; want.push_back(v); }
+      want = fk::normalized(want);
+    }
+    const std::string sig = cls + ",pt=" + kinds[kind];
+    const bool omit = se == 0 && r.chance(1, 2);
+    const unsigned form = (unsigned)r.below(bits == 4 && se >= -5 && se <= 5 ? 4 : 3);
+    static const char* forms[] = {"std_vector", "eigen_vector", "std_deque", "float_vector"};
+    c.log(std::string("locate_point pt=") + kinds[kind] + " coordinates<2^" + vh::str(bits) + " form=" + forms[form] + (omit ? ",scale_omitted" : "") + " x=" + show_point(x));
+    PR R = form == 0 ? locate_as<Point>(tr, x, scale, omit) : form == 1 ? locate_as<Vec>(tr, x, scale, omit)
+         : form == 2 ? locate_as<std::deque<double>>(tr, x, scale, omit) : locate_as<std::vector<float>>(tr, x, scale, omit);
+    c.count("obs.locate_point");
+    c.count(std::string("obs.locate_point.wide.") + kinds[kind]);
+    c.count(std::string("obs.locate_point.form.") + forms[form] + (omit ? ",scale_omitted" : ""));
+    c.count("obs.locate_point.coordinate_bits" + vh::str(bits));
+    c.log("  -> " + show(R));
+    if (!C20_EXPECT(c, wellformed(R, d), "locate.rep_wellformed", sig, show(R) + " is not an ordered partition of 0..d with d in the last part")) return;
+    fk::Simplex V;
+    if (!vertex_checks(c, R, d, "from_locate", V, nullptr)) return;
+    std::string how = V == want ? "" : fk::subset(want, V) ? ",returned_proper_coface" : fk::subset(V, want) ? ",returned_proper_face" : ",returned_other";
+    if (!C20_EXPECT(c, V == want, "locate.exact_simplex", sig + how, "exact set-up: point " + show_point(x) + " scale 2^" + vh::str(se) + " has carrier " + fk::show(want) + " but returned " + fk::show(V))) return;
+    canonical_check(c, R, V, "from_locate");
+    route_eq_checks(c, R, d, "from_locate", V, 300);
+    // Cartesian coordinates of the vertices: v / scale, exact
+    for (auto& v : V) {
+      Vec cc = tr.cartesian_coordinates(v, scale);
+      c.count("obs.cartesian_coordinates");
+      bool same = cc.size() == (long)d;
+      for (std::size_t i = 0; same && i < d; ++i) same = cc(i) == std::ldexp((double)v[i], -se);
+      if (!C20_EXPECT(c, same, "cartesian.matches_affine_map", cls, "vertex " + fk::show(v) + " scale 2^" + vh::str(se) + ": " + vh::str(cc.transpose()))) return;
+    }
+    {
+      Vec bc = omit ? tr.barycenter(R) : tr.barycenter(R, scale);
+      c.count("obs.barycenter");
+      Vec mean = Vec::Zero(d);
+      for (auto& v : V) for (std::size_t i = 0; i < d; ++i) mean(i) += std::ldexp((double)v[i], -se);
+      mean /= (double)V.size();
+      if (!C20_EXPECT(c, bc.size() == (long)d && (bc - mean).cwiseAbs().maxCoeff() <= 1e-12 * (std::ldexp(1.0, -se) + mean.cwiseAbs().maxCoeff()), "barycenter.matches_mean", cls, "simplex " + show(R) + ": " + vh::str(bc.transpose()) + " vs " + vh::str(mean.transpose()))) return;
+    }
+    if (q < 4) {
+      if (!face_checks(c, R, d, "from_locate", V, nullptr)) return;
+      CofaceOpts small; small.cap = 150; small.converse_sample = 6; small.face_sample = 6;
+      if (!coface_checks(c, R, d, "from_locate", V, small, nullptr)) return;
+    }
+    c.count("shape.wide_located_dim" + vh::str(R.dimension()));
+    if (V.size() >= 2 && V.size() <= d) nontrivial = true;
+  }
+  if (nontrivial) c.nontrivial(vh::hash_str(vh::G().history));
+  c.sample("{\"history\":\"" + vh::jesc(vh::G().history.substr(0, 700)) + "\"}");
+}
 VH_CONFIG("fk_identity", fk_identity_case);
 VH_CONFIG("fk_affine", fk_affine_case);
+VH_CONFIG("fk_scales", fk_scales_case);
+VH_CONFIG("fk_aniso", fk_aniso_case);
+VH_CONFIG("fk_wide", fk_wide_case);
 #else
 void coxeter_case(vh::Case& c) {
   vh::Rng& r = c.rng;
